@@ -301,13 +301,9 @@ def check_log_types(c, repo):
             labs = set(L.labels_at(n, log_parts(k)[0])) - {'const', 'final-true'}      # how the decoder is flushed is C07's concern
             if f.name == '_log_control':
                 # bytes mode logs the byte, text mode the decoded byte: accept text / ctrlbyte under the encoding test
-                tests = [t for t in g.nodes if t.kind == 'test' and norm(t.ast) == 'self.encoding is not None']
-                decs = [m for m in g.nodes if m.kind == 'stmt' and isinstance(m.ast, ast.Assign) and f.params[1] in assigned_names(m.ast)
-                        and isinstance(m.ast.value, ast.Call) and callee_last(m.ast.value) == 'decode']
-                ok = len(tests) == 1 and len(decs) == 1 and decs[0] in guard_region(g, tests[0], 'true') and \
-                    norm(decs[0].ast.value.args[0]) == 'self.encoding' if decs and decs[0].ast.value.args else False
+                ok, wit = log_control_ok(f)
                 c.check(ok, f, k, 'control bytes are decoded with the instance encoding in text mode, logged as bytes in bytes mode',
-                        witness=str(sorted(labs)), kind='flow', tag='type:ctrl')
+                        witness=wit, kind='flow', tag='type:ctrl')
                 continue
             good = labs and labs <= {'text', 'sendstr'}
             if good:
